@@ -148,4 +148,12 @@ def main(argv):
 
 
 if __name__ == "__main__":
-    sys.exit(main(sys.argv[1:]))
+    os.environ["VERIF_RUN_ID"] = "run-%d" % os.getpid()
+    code = 2
+    try:
+        code = main(sys.argv[1:])
+    finally:
+        import shutil
+
+        shutil.rmtree(os.path.join(ROOT, ".work", os.environ["VERIF_RUN_ID"]), ignore_errors=True)
+    sys.exit(code)
